@@ -8,16 +8,18 @@ import (
 	"sync"
 	"time"
 
+	"a0verif/instr"
 	"a0verif/plan"
 )
 
 // mirror of the worker's JSON (the driver does not link the code under test)
 type c06Case struct {
-	N      int      `json:"n"`
-	Lang   int      `json:"lang"`
-	Dev    plan.Dev `json:"dev"`
-	Family string   `json:"family,omitempty"`
-	PreMs  int64    `json:"pre_ms,omitempty"`
+	N        int      `json:"n"`
+	Lang     int      `json:"lang"`
+	Dev      plan.Dev `json:"dev"`
+	Family   string   `json:"family,omitempty"`
+	PreMs    int64    `json:"pre_ms,omitempty"`
+	PreCalls int      `json:"pre_calls,omitempty"`
 }
 type c06Job struct {
 	Kind  string    `json:"kind"`
@@ -30,8 +32,10 @@ type c06Job struct {
 	Keep  int       `json:"keep,omitempty"`
 	cold  bool
 	part  bool // its distinct count is disjoint from every other job's by construction
+	env   []string
 }
 type c06Viol struct {
+	env    []string
 	Case   c06Case        `json:"case"`
 	Prev   *c06Case       `json:"prev,omitempty"`
 	Class  string         `json:"class"`
@@ -70,6 +74,7 @@ type c06Verdict struct {
 // process; the verdict is that of the LAST case (earlier ones only set the stage).
 type c06Plan struct {
 	Cases []c06Case `json:"cases"`
+	Env   []string  `json:"env,omitempty"` // additions to the process environment
 }
 
 func addMap(dst, src map[string]int) {
@@ -88,9 +93,9 @@ func c06Key(v *c06Viol) string {
 }
 
 // runCases executes the cases in one fresh process and returns the verdict on the last one.
-func (g *c06Engine) runCases(cs []c06Case) (*c06Viol, error) {
+func (g *c06Engine) runCases(cs []c06Case, env []string) (*c06Viol, error) {
 	var res c06Result
-	p, err := g.e.RunJSON(g.bin, "c06", c06Job{Kind: "explicit", Cases: cs}, &res, 60*time.Second)
+	p, err := g.e.RunJSON(g.bin, "c06", c06Job{Kind: "explicit", Cases: cs}, &res, 60*time.Second, env...)
 	if err != nil {
 		return nil, err
 	}
@@ -104,7 +109,7 @@ func (g *c06Engine) runCases(cs []c06Case) (*c06Viol, error) {
 	if last.Class == "" {
 		return nil, nil
 	}
-	v := &c06Viol{Case: cs[len(cs)-1], Class: last.Class, Detail: last.Detail, Out: last.Out, Log: last.Log}
+	v := &c06Viol{env: env, Case: cs[len(cs)-1], Class: last.Class, Detail: last.Detail, Out: last.Out, Log: last.Log}
 	if len(cs) > 1 {
 		v.Prev = &cs[len(cs)-2]
 	}
@@ -129,7 +134,7 @@ func (g *c06Engine) Reproduce(pl interface{}) (*Violation, error) {
 	if err != nil {
 		return nil, err
 	}
-	v, err := g.runCases(c.Cases)
+	v, err := g.runCases(c.Cases, c.Env)
 	if err != nil || v == nil {
 		return nil, err
 	}
@@ -138,10 +143,13 @@ func (g *c06Engine) Reproduce(pl interface{}) (*Violation, error) {
 
 func c06PlanViolation(cs []c06Case, v *c06Viol) *Violation {
 	stage := ""
-	if len(cs) > 1 {
-		stage = fmt.Sprintf(" (after %d earlier call(s) in the same process, the last one %s)", len(cs)-1, mustJSON(cs[len(cs)-2]))
+	if len(v.env) > 0 {
+		stage = " [process environment: " + strings.Join(v.env, " ") + "]"
 	}
-	return &Violation{Property: "C06", Class: v.Class, Key: c06Key(v), Engine: "srcsim-c06", Plan: c06Plan{Cases: cs},
+	if len(cs) > 1 {
+		stage += fmt.Sprintf(" (after %d earlier call(s) in the same process, the last one %s)", len(cs)-1, mustJSON(cs[len(cs)-2]))
+	}
+	return &Violation{Property: "C06", Class: v.Class, Key: c06Key(v), Engine: "srcsim-c06", Plan: c06Plan{Cases: cs, Env: v.env},
 		Detail: fmt.Sprintf("NewMnemonic(%d, lang %d)%s: %s; outcome %s err=%s; device reads %s", v.Case.N, v.Case.Lang, stage, v.Detail, v.Out.Out, v.Out.Err, mustJSON(v.Log))}
 }
 
@@ -164,7 +172,7 @@ func (g *c06Engine) Minimise(v *Violation) *Violation {
 	}
 	cs := pl.Cases
 	same := func(t []c06Case) bool {
-		got, err := g.runCases(t)
+		got, err := g.runCases(t, pl.Env)
 		return err == nil && got != nil && got.Class == v.Class
 	}
 	// does the last case fail on its own?
@@ -201,7 +209,7 @@ func (g *c06Engine) Minimise(v *Violation) *Violation {
 	for i := len(cs) - 1; i >= 0; i-- {
 		shrink(i)
 	}
-	got, err := g.runCases(cs)
+	got, err := g.runCases(cs, pl.Env)
 	if err != nil || got == nil || got.Class != v.Class {
 		return v
 	}
@@ -229,6 +237,19 @@ func CheckC06(e *Env) (int, error) {
 	}
 	for _, k := range []string{"faults", "boundary", "structured", "stalls", "slow"} {
 		jobs = append(jobs, c06Job{Kind: k, Seed: sd(k, 0), Keep: 2, part: true})
+	}
+	// the environment is no property of the source: every variable the tree is seen to read, set in turn to flag-,
+	// number- and literal-shaped values, with the failure-point, boundary and two-part-split families
+	envNames, envOpaque := instr.EnvNames(e.RepoCopy())
+	envVals := append([]string{"1", "true", "0", "2", "8", "16", "64", "4096"}, instr.EnvValueCandidates(e.RepoCopy())...)
+	envJobs := 0
+	for _, name := range envNames {
+		for _, val := range envVals {
+			for _, k := range []string{"faults", "boundary", "structured"} {
+				jobs = append(jobs, c06Job{Kind: k, Seed: sd("env/"+k, envJobs), env: []string{name + "=" + val}})
+			}
+			envJobs++
+		}
 	}
 	addComps := func(n int) {
 		need := n + n/3
@@ -290,7 +311,7 @@ func CheckC06(e *Env) (int, error) {
 			bin = cold
 		}
 		var r c06Result
-		p, err := e.RunJSON(bin, "c06", j, &r, 20*time.Minute)
+		p, err := e.RunJSON(bin, "c06", j, &r, 20*time.Minute, j.env...)
 		mu.Lock()
 		defer mu.Unlock()
 		if err == nil && j.Kind == "panics" && p.DiedOfDevicePanic() {
@@ -332,13 +353,14 @@ func CheckC06(e *Env) (int, error) {
 			tot.ByFamily["cold:"+j.Kind] += r.Cases
 		} else {
 			addMap(tot.ByFamily, r.ByFamily)
-			if j.part {
+			if j.part && len(j.env) == 0 {
 				distinct += r.Distinct
 			} else if r.Distinct > maxSeededDistinct[j.N] {
 				maxSeededDistinct[j.N] = r.Distinct
 			}
 		}
 		for k := range r.Viol {
+			r.Viol[k].env = j.env
 			viols = append(viols, c06Violation(&r.Viol[k]))
 		}
 		if len(samples) < 12 {
@@ -378,18 +400,21 @@ func CheckC06(e *Env) (int, error) {
 		"cold_start_seam_unavailable": seamUnavailable,
 		"calls_after_a_source_panic_that_never_returned_not_judged":  postPanicHang,
 		"processes_ended_by_the_device_panic_in_a_library_goroutine": devicePanicKilled,
-		"sim_steps_total":       tot.Reads,
-		"sim_time_note":         "the unchanged tree reads no clock, so simulated time is counted in device reads; a tree that imports \"time\" gets Now/Since/Until from the clock seam, which the simulator moves forward in jumps (reads of the device that take 0.15 s to 1 h of simulated time)",
-		"clock_seam_files":      e.ClockFiles("go"),
-		"faults_fired":          tot.Fired,
-		"probes":                tot.Probes,
-		"relaxations_applied":   tot.Relaxed,
-		"by_family":             tot.ByFamily,
-		"by_language":           tot.ByLang,
-		"by_word_count":         tot.ByN,
-		"max_reads_in_one_call": tot.MaxReads,
-		"raw_violations":        tot.ViolCount,
-		"outcome_digest":        od.String(),
+		"sim_steps_total":                        tot.Reads,
+		"sim_time_note":                          "the unchanged tree reads no clock, so simulated time is counted in device reads; a tree that imports \"time\" gets Now/Since/Until from the clock seam, which the simulator moves forward in jumps (reads of the device that take 0.15 s to 1 h of simulated time)",
+		"clock_seam_files":                       e.ClockFiles("go"),
+		"environment_variables_read_by_the_tree": envNames,
+		"environment_reads_with_opaque_names":    envOpaque,
+		"environment_settings_swept":             envJobs,
+		"faults_fired":                           tot.Fired,
+		"probes":                                 tot.Probes,
+		"relaxations_applied":                    tot.Relaxed,
+		"by_family":                              tot.ByFamily,
+		"by_language":                            tot.ByLang,
+		"by_word_count":                          tot.ByN,
+		"max_reads_in_one_call":                  tot.MaxReads,
+		"raw_violations":                         tot.ViolCount,
+		"outcome_digest":                         od.String(),
 	}
 	if err := e.WriteEvidence("C06", "fault_enumeration", cov, []string{
 		"reference BIP39 encoder in /verif/ref over frozen word lists pinned by SHA-256 (validated against published vectors)",
